@@ -161,7 +161,7 @@ def gen_boundary():
 
 def gen(ctx, scale):
     r = ctx.rng
-    return gen_boundary() + gen_arr(r, 150 * scale) + gen_mm(r, 500 * scale) + gen_dt(r, 500 * scale)
+    return gen_boundary() + gen_arr(r, 150 * scale) + gen_mm(r, 500 * scale) + gen_dt(r, 500 * scale) + gen_dt_idx(r, 300 * scale)
 
 
 def gen_guards():
@@ -232,4 +232,45 @@ def gen_ubsan():
                         cases.append('g rawadv %d %d %d' % (c, idx, d))
             if c <= 5:
                 cases.append('g rawarrow %d %d' % (c, idx))
+    # DataRawMultiHashIterator (FindByMultiHash bounds of c rows): += over the whole ptrdiff_t range; -> at every reachable index incl. the end
+    for c in (0, 1, 2, 3, 9):
+        for idx in sorted(set((0, 1, c))):
+            if idx > c: continue
+            for d in sorted(set((0, 1, -1, 2, -2, c - idx, c - idx + 1, -idx, -idx - 1, 1000, M63 - 1, M63 - 1 - idx, M63 - idx, -M63, -M63 + 1, 2 ** 62, -2 ** 62))):
+                if -M63 <= d < M63:
+                    cases.append('g mhadv %d %d %d' % (c, idx, d))
+            cases.append('g mharrow %d %d' % (c, idx))
     return sorted(set(cases))
+
+
+def gen_dt_idx(r, n):
+    """index look-up histories (Table.v TFindMulti / TBounds*): a table with a multi-hash index, values from a small set so that the
+    bounds hold several rows; slots 0..3 row references, 10..11 selections, 20..21 bounds.  No sorting (not stable on equal values)."""
+    cases = []
+    V = [5, 6, 7]
+    for _ in range(n):
+        ops = ['addrow,%d' % r.choice(V) for _ in range(r.choice([0, 1, 2, 5, 12]))]
+        ops += ['findm,%d,20' % r.choice(V), 'findm,%d,21' % r.choice(V + [99])]
+        for _ in range(r.range(5, 14)):
+            t = r.below(24); s = r.below(4); b = 20 + r.below(2)
+            if t in (0, 1): ops.append('findm,%d,%d' % (r.choice(V + [99]), b))
+            elif t in (2, 3, 4): ops.append('bat,%d,%d' % (b, r.choice([0, 0, 1, 2, 5, 13])))
+            elif t in (5, 6): ops.append('bsum,%d' % b)
+            elif t == 7: ops.append('bcount,%d' % b)
+            elif t in (8, 9): ops.append('addrow,%d' % r.choice(V))
+            elif t == 10: ops.append('insert,%d,%d' % (r.choice([0, 1, 3, 50]), r.choice(V)))
+            elif t == 11: ops.append('rmnum,%d' % r.choice([0, 1, 2, 40]))
+            elif t == 12: ops.append('ref,%d,%d' % (r.choice([0, 1, 2, 20]), s))
+            elif t == 13: ops.append('rmref,%d,%d' % (s, r.below(2)))
+            elif t == 14: ops.append('updref,%d,%d' % (s, r.choice(V)))
+            elif t == 15: ops.append('updnum,%d,%d' % (r.choice([0, 1, 40]), r.choice(V)))
+            elif t == 16: ops.append('rmif,%d' % r.choice([2, 5, 1000003]))
+            elif t == 17: ops.append('clear')
+            elif t == 18: ops.append('read,%d' % s)
+            elif t == 19: ops.append('selectif,%d,10' % r.choice([5, 7]))
+            elif t == 20: ops.append('rmsel,10')
+            elif t == 21: ops.append('selsum,10')
+            else: ops.append('count')
+        ops += ['bat,20,0', 'bsum,21', 'bcount,20']
+        cases.append('dth ' + ' '.join(ops))
+    return cases
